@@ -28,6 +28,9 @@ func runC01(w *World) {
 	if w.tier == "quick" && size > 80 {
 		size = 80
 	}
+	if w.deep() && w.knob("deep", 4) == 0 {
+		size = 500
+	}
 	nkeys := 1 + w.knob("nkeys", 3)
 	nids := 2 + w.knob("nids", 3)
 	style := w.knob("style", 4)
